@@ -184,3 +184,46 @@ def check(report: Report, repo: Repo) -> None:
     except Unsupported as ex:
         report.add("R3-no-mutation", f"{cons}::tensor-lr", None, f"outside fragment: {ex}")
 
+
+    # ---- R5: the same through the three optimizer classes (what a user actually constructs): the groups the torch
+    # optimizer receives carry lr x weight_decay == requested decay by default and with independent_weight_decay=True,
+    # and the plain decay with independent_weight_decay=False
+    n_opt = 0
+    for cname in ("SGD", "Adam", "AdamW"):
+        for mode in ("default", True, False):
+            it3 = Interp(repo)
+            cls = it3.get_global(OP, cname)
+            init = it3.class_attr(cls, "__init__") if cls is not None else None
+            ocons = f"{OP}::{cname}.__init__"
+            if init is None:
+                raise AnalysisError(f"anchor vanished: optim.py::{cname}.__init__")
+            p1, p2, p3, pu = mk()
+            selfv = Obj(f"unit_scaling.optim.{cname}", cls=cls)
+            kw = dict(weight_decay=wd)
+            if mode != "default":
+                kw["independent_weight_decay"] = mode
+            lab = f"{cname}(params, lr, weight_decay=wd" + ("" if mode == "default" else f", independent_weight_decay={mode}") + ")"
+            try:
+                it3.call_function(init, [selfv, [p1, p3], lr], kw)
+            except Unsupported as ex:
+                report.add("R5-optimizers", ocons, None, f"{lab}: outside fragment: {ex}")
+                continue
+            sup = [e for e in it3.events if e.kind == "super" and e["method"] == "__init__"]
+            groups = sup[0]["args"][0] if len(sup) == 1 and sup[0]["args"] else None
+            if not (isinstance(groups, list) and len(groups) == 2 and all(isinstance(g, dict) for g in groups)):
+                report.add("R5-optimizers", ocons, None if groups is None or not isinstance(groups, list) else False, f"{lab}: the torch optimizer must receive one group per parameter", fmt(groups), "2 groups")
+                continue
+            for g in groups:
+                n_opt += 1
+                glr_, gwd_ = g.get("lr"), g.get("weight_decay")
+                if not all(isinstance(v_, (int, float, sp.Basic)) for v_ in (glr_, gwd_)):
+                    report.add("R5-optimizers", f"{ocons}::decay", None, f"{lab}: group lr / weight_decay not closed-form", fmt((glr_, gwd_)))
+                    continue
+                if mode is False:
+                    ok = TM.expr_equal(gwd_, wd)
+                    want = "weight_decay == wd"
+                else:
+                    ok = TM.expr_equal(sp.sympify(glr_) * sp.sympify(gwd_), wd)
+                    want = "lr x weight_decay == wd"
+                report.add("R5-optimizers", f"{ocons}::decay", ok, f"{lab}: {want} in every group handed to torch.optim.{cname}", f"lr={fmt(glr_)}, weight_decay={fmt(gwd_)}", want)
+    report.floor("optimizer-class groups checked", n_opt, 18)
